@@ -14,6 +14,6 @@ Init == i = 1 /\ bad = <<>>
 Next == /\ i <= Len(Rec)
         /\ bad' = IF Ok(Rec[i]) THEN bad ELSE Append(bad, i)
         /\ i' = i + 1
-Report == (i = Len(Rec) + 1) => PrintT(<<"INFO", "bad", bad>>)
+Report == (i = Len(Rec) + 1) => PrintT(<<"INFO", "bad", ToJson(bad)>>)
 Accepted == PrintT(<<"INFO", "matched", TLCGet("stats").diameter - 1>>)
 =============================================================================
